@@ -262,12 +262,19 @@ fn write_keys_map_to_disk(keys: HashMap<String, u64>) {
     let keys_file_name = get_keys_map_file_name();
     log::debug!("Will write the keys {} from disk", keys_file_name);
 
-    let mut keys_file = OpenOptions::new()
-        .create(true)
-        .write(true)
-        .open(keys_file_name)
-        .unwrap();
-    bincode::serialize_into(&mut keys_file, &keys.clone()).unwrap();
+    // Write to a temporary file and rename it over the old one, so a crash in the middle of the
+    // write never leaves a half written keys file (that would make the next start panic).
+    let tmp_keys_file_name = format!("{}.tmp", keys_file_name);
+    {
+        let mut keys_file = OpenOptions::new()
+            .create(true)
+            .write(true)
+            .truncate(true)
+            .open(&tmp_keys_file_name)
+            .unwrap();
+        bincode::serialize_into(&mut keys_file, &keys.clone()).unwrap();
+    }
+    fs::rename(&tmp_keys_file_name, &keys_file_name).unwrap();
 }
 
 fn get_invalidate_file_name() -> String {
